@@ -390,6 +390,8 @@ macro_rules! ks_backend {
                             // C01 for LWE: encrypt a plaintext of ps limbs (radix = the ciphertext's), decrypt into pdec limbs
                             let koff = gu(c, "koff", 0) as u32;
                             let (ps, pdec) = (gu(c, "ps", sin as u64) as u32, gu(c, "pdec", sin as u64) as u32);
+                            // the radix of the plaintext decrypted into (the ciphertext's unless the descriptor says otherwise)
+                            let bdec = gu(c, "bdec", bin as u64) as u32;
                             out.sk_in = lwe_dump_sk(&sk_lwe);
                             out.sk_out = lwe_dump_sk(&sk_lwe);
                             let k = sin * bin - koff;
@@ -402,14 +404,14 @@ macro_rules! ks_backend {
                             let decl = m.lwe_encrypt_sk_tmp_bytes(&ct);
                             let ni = noise(k);
                             scr_call::<BE, _>(exact, decl, f ^ 23, "lwe_encrypt_sk", &mut scr_log, |s| m.lwe_encrypt_sk(&mut ct, &pt, &sk_lwe, &ni, &mut source_xe, &mut source_xa, s));
-                            let mut dec = LWEPlaintext::alloc(Base2K(bin), TorusPrecision(pdec * bin));
+                            let mut dec = LWEPlaintext::alloc(Base2K(bdec), TorusPrecision(pdec * bdec));
                             Rng::new(f ^ 31).fill(dec.data_mut().data.as_mut());
                             let decl = m.lwe_decrypt_tmp_bytes(&ct);
                             scr_call::<BE, _>(exact, decl, f ^ 24, "lwe_decrypt", &mut scr_log, |s| m.lwe_decrypt(&ct, &mut dec, &sk_lwe, s));
-                            let pd = |p: &LWEPlaintext<Vec<u8>>| json!({"b": bin, "size": p.data().size(), "d": (0..p.data().size()).map(|j| vec![p.data().at(0, j)[0]]).collect::<Vec<_>>()});
+                            let pd = |p: &LWEPlaintext<Vec<u8>>, b: u32| json!({"b": b, "size": p.data().size(), "d": (0..p.data().size()).map(|j| vec![p.data().at(0, j)[0]]).collect::<Vec<_>>()});
                             out.input = dump_lwe(&ct);
-                            out.key = json!({"pt": pd(&pt)});
-                            out.res = json!({"rank": 0, "lwe": 2, "b": bin, "size": dec.data().size(), "pt": pd(&dec)});
+                            out.key = json!({"pt": pd(&pt, bin)});
+                            out.res = json!({"rank": 0, "lwe": 2, "b": bdec, "size": dec.data().size(), "pt": pd(&dec, bdec)});
                         }
                         "sample_extract" => {
                             // purely structural: rank-1 GLWE -> LWE of dimension nlwe <= N, same radix
